@@ -75,11 +75,34 @@ def known_match(known, pid, v: Viol):
 # worker side
 
 
-def _collect(prop, case, st):
-    from .gen import case_hash
+class CaseTimeout(BaseException):
+    pass
 
+
+def _alarm(signum, frame):
+    raise CaseTimeout()
+
+
+def _collect(prop, case, st):
+    from .gen import case_hash, dump_case
+    import signal
+
+    limit = int(getattr(prop, "CASE_TIMEOUT_S", 120))
     try:
-        out = prop.run_case(case)
+        signal.signal(signal.SIGALRM, _alarm)
+        signal.alarm(limit)
+    except ValueError:
+        limit = 0
+    try:
+        try:
+            out = prop.run_case(case)
+        finally:
+            if limit:
+                signal.alarm(0)
+    except CaseTimeout:
+        st["harness_errors"].append("case exceeded %ds of wall clock (inconclusive, never a violation):\n%s"
+                                    % (limit, dump_case(case)[:3000]))
+        return None
     except BaseException as exc:  # noqa: BLE001
         if isinstance(exc, (KeyboardInterrupt, SystemExit)):
             raise
